@@ -5,6 +5,7 @@ import Driver.C12
 import Driver.PubProps
 import Driver.C18
 import Driver.C19
+import Driver.C08
 open Lean
 
 def dispatch (p : String) (inp obs : Json) : Drv.Res :=
@@ -12,6 +13,7 @@ def dispatch (p : String) (inp obs : Json) : Drv.Res :=
   | "C13" => Drv.c13 inp obs
   | "C14" => Drv.c14 inp obs
   | "C12" => Drv.c12 inp obs
+  | "C08" => Drv.c08 inp obs
   | "C18" => Drv.c18 inp obs
   | "C19" => Drv.c19 inp obs
   | "PUB" => Drv.pubGeneric p inp obs
